@@ -1304,7 +1304,7 @@ def replay(ctx: "vlib.Ctx", path: str) -> None:
 COQ_TAGS = ["LITERAL_NONE", "LITERAL_INT", "LITERAL_STR", "LIST_GEN", "LIST_INT", "LOCATION", "END_TAG", "EXPR_STMT", "CALL_EXPR",
             "NAME_EXPR", "STR_EXPR", "MEMBER_EXPR", "OP_EXPR", "INT_EXPR", "IF_STMT", "ASSIGNMENT_STMT", "TUPLE_EXPR", "BLOCK",
             "LIST_EXPR", "RETURN_STMT", "WHILE_STMT", "COMPARISON_EXPR", "BOOL_OP_EXPR", "PASS_STMT", "UNARY_EXPR", "FOR_STMT",
-            "CONDITIONAL_EXPR", "FUNC_DEF_STMT"]
+            "CONDITIONAL_EXPR", "FUNC_DEF_STMT", "CLASS_DEF", "DICT_STR_GEN"]
 BINOP_C = {"+": "Add", "-": "Sub", "*": "Mult", "@": "MatMult", "/": "Div", "%": "Mod", "**": "Pow", "<<": "LShift", ">>": "RShift",
            "|": "BitOr", "^": "BitXor", "&": "BitAnd", "//": "FloorDiv"}
 CMPOP_C = {"==": "Eq", "!=": "NotEq", "<": "Lt", "<=": "LtE", ">": "Gt", ">=": "GtE", "is": "Is", "is not": "IsNot", "in": "In", "not in": "NotIn"}
@@ -1378,6 +1378,11 @@ def cq_stmts(l: list) -> str:
 
 def cq_stmt(s: list) -> str:
     k = s[0]
+    if k == "SClass":
+        kw = "KNil"
+        for x in reversed(s[4]):
+            kw = f"(KCons {cq_s(x[1])} {cq_expr(x[2])} {kw})"
+        return f"(SClass {cq_pos(s[1])} {cq_s(s[2])} {cq_exprs(s[3])} {kw} {cq_exprs(s[5])} {cq_stmt(s[6][0])} {cq_stmts(s[6][1:])})"
     if k == "SDef":
         ps = "PNil"
         for x in reversed(s[3]):
@@ -1485,6 +1490,8 @@ def norm_real(x: Any) -> Any:
                 return ("s", x[1])
             if h == "none":
                 return ["<None>"]
+            if h == "pair":
+                return ["pair"] + [norm_real(y) for y in x[1:]]
             if h == "P" or h.startswith("M"):
                 return [h] + [norm_real(y) for y in x[1:]]
         return ["list"] + [norm_real(y) for y in x]
@@ -1517,6 +1524,9 @@ FRAG_FIXED = [
     "def f(a=(1, 2), b=g(x)): pass\n", "def f():\n    def g(x):\n        return x\n    return g\n", "def f(): pass\ndef f(): pass\ndef g(): pass\n",
     "if a:\n    def f(): pass\nelse:\n    def f(x): pass\n", "def f(a,\n      b=1,\n      *c): pass\n", "async def f(): pass\n", "@d\ndef f(): pass\n",
     "def f(x: int): pass\n", "def f() -> int: pass\n", "def f(x, x): pass\n",
+    "class A: pass\n", "class A():\n    x = 1\n", "class A(B, c.D, metaclass=M, k=1):\n    def f(self): pass\n", "@dec\n@a.b(1)\nclass A(B):\n    pass\n",
+    "class A(metaclass=M, metaclass2=N):\n    pass\n", "class A(*b): pass\n", "class A(**k): pass\n", "class A(B,\n        C):\n    class D: pass\n",
+    "if a:\n    class A: pass\nelse:\n    class A(B): pass\n",
 ]
 
 
@@ -1582,7 +1592,7 @@ def gen_frag_programs(rng: "vlib.Rng", n: int) -> list[str]:
         return f"({e})"
 
     def stmt(d: int, ind: str) -> list[str]:
-        k = rng.choice(["expr", "expr", "assign", "return", "pass", "while", "for", "if", "if", "def", "def"]) if d > 0 else rng.choice(["expr", "assign", "pass", "return"])
+        k = rng.choice(["expr", "expr", "assign", "return", "pass", "while", "for", "if", "if", "def", "def", "class"]) if d > 0 else rng.choice(["expr", "assign", "pass", "return"])
         if k == "expr":
             return [ind + expr(2)]
         if k == "assign":
@@ -1593,6 +1603,14 @@ def gen_frag_programs(rng: "vlib.Rng", n: int) -> list[str]:
         if k == "pass":
             return [ind + "pass"]
         body = lambda: [l for _ in range(rng.randint(1, 2)) for l in stmt(d - 1, ind + "    ")]  # noqa: E731
+        if k == "class":
+            heads = []
+            for _ in range(rng.randint(0, 2)):
+                heads.append(atom(1))
+            for kwn in rng.sample(["metaclass", "total", "k"], rng.randint(0, 2)):
+                heads.append(f"{kwn}={expr(1)}")
+            decos = [ind + "@" + rng.choice(["dec", "a.b", "dec(1)", "f(x, k=2)"]) for _ in range(rng.choice([0, 0, 1, 2]))]
+            return decos + [ind + f"class {rng.choice(['A', 'Bc', '__C'])}" + (f"({', '.join(heads)})" if heads or rng.random() < 0.2 else "") + ":"] + body()
         if k == "def":
             ps = []
             pool_ = ["a", "b", "c", "self", "__x", "__y__", "k", "_"]
